@@ -149,6 +149,7 @@ def op_table():
         'all_pos': lambda o, a: o.all(1, [a['i']]) if len(o) else None,
         'unpack_bin': lambda o, a: o.unpack('bin'),
         'unpack_mixed': lambda o, a: o.unpack('uint:3, bits'),
+        'identity_ops': lambda o, a: _identity_ops(o, bs),
         'tobitarray': lambda o, a: o.tobitarray(),
         'tobitarray_use': lambda o, a: _use_bitarray(o),
         'copy': lambda o, a: o.copy(),
@@ -166,6 +167,25 @@ def op_table():
         'length_prop': lambda o, a: (o.len, o.length),
     }
     return T
+
+
+def _identity_ops(o, bs):
+    # operations whose result has the same bits as the operand: shortcuts that hand back (a view of) the operand's own storage live here
+    n = len(o)
+    out = []
+    for f in (lambda: o << 0, lambda: o >> 0, lambda: o * 1, lambda: 1 * o, lambda: o + bs.Bits(), lambda: bs.Bits() + o, lambda: o[:], lambda: o[0:n], lambda: o & bs.Bits(bin='1' * n),
+              lambda: o | bs.Bits(n), lambda: o ^ bs.Bits(n), lambda: ~~o, lambda: o.copy(), lambda: bs.Bits().join([o]), lambda: list(o.cut(max(n, 1)))[:1], lambda: o.__class__(o)):
+        r = attempt(f)
+        if is_raised(r):
+            out.append(('exc', type(r.exc).__name__))
+            continue
+        if isinstance(r, list):
+            r = r[0] if r else None
+        if r is not None and isinstance(r, bs.BitArray):
+            r.append('0b1')            # a mutable result belongs to the caller
+            r.invert()
+        out.append(norm(r))
+    return out
 
 
 def _use_bitarray(o):
@@ -210,6 +230,9 @@ def _setpos(o, i):
 
 
 OP_NAMES = None
+# operations that can hand back (part of) the operand's own storage
+SHARING_OPS = ['identity_ops', 'tobitarray_use', 'copy', 'copycopy', 'to_Bits', 'to_BitArray', 'to_BitStream', 'to_ConstBitStream', 'kw_bits', 'slice', 'add', 'radd', 'lshift', 'rshift', 'mul',
+               'pack_bits', 'array_from', 'join', 'join_into', 'and', 'invert', 'cut', 'tofile', 'bytes_builtin']
 
 
 @st.composite
@@ -235,6 +258,17 @@ def case_st(draw, tier, routes=ALL_ROUTES, mutate=False):
         args.update(content=content, same=draw(bits_of_len(n)), pat=content[k:k + 8 * draw(st.integers(1, 3))] or content[:8],
                     start=draw(st.sampled_from([None, None, 0, 8, 3])), end=draw(st.sampled_from([None, None, n, n - 8, n - 3])),
                     ba=draw(st.sampled_from([None, False, True, True])))
+    if route in ('file_name_full', 'file_handle_full', 'pathlib_name', 'file_len_whole', 'file_offset_nolen') and not mutate and not runs:
+        # whole files are the objects that stay memory mapped (immutable classes only): whole-byte contents, immutable classes and the
+        # storage-sharing operations get extra weight here
+        if draw(st.integers(0, 3)):
+            nb = draw(st.integers(1, 12)) if draw(st.integers(0, 4)) else draw(st.sampled_from([125, 250, 251, 1024]))
+            content = draw(bits_of_len(8 * nb))
+            n = len(content)
+            args.update(content=content, same=draw(bits_of_len(n)), i=draw(st.integers(-n - 2, n + 2)), start=draw(st.one_of(st.none(), st.integers(0, n))),
+                        end=draw(st.one_of(st.none(), st.integers(0, n))), s0=draw(st.one_of(st.none(), st.integers(-n - 2, n + 2))), s1=draw(st.one_of(st.none(), st.integers(-n - 2, n + 2))))
+        if draw(st.booleans()):
+            cls = draw(st.sampled_from(['Bits', 'ConstBitStream']))
     case = {'cls': cls, 'route': route, 'salt': draw(st.integers(0, 60)), 'args': args, 'lsb0': draw(st.sampled_from([False, False, True]))}
     if mutate:
         case['mop'] = draw(c03.op_st(c03.ALL_OPS))
@@ -242,6 +276,8 @@ def case_st(draw, tier, routes=ALL_ROUTES, mutate=False):
     else:
         names = sorted(op_table()) + (sorted(STREAM_OPS) * 2 if cls in STREAMS else [])
         case['op'] = draw(st.sampled_from(names))
+        if draw(st.integers(0, 5)) == 0:
+            case['op'] = draw(st.sampled_from(SHARING_OPS))
         if runs and draw(st.integers(0, 3)):
             case['op'] = draw(st.sampled_from(['findall', 'findall', 'find', 'rfind', 'split', 'contains', 'startswith', 'endswith'] + (['readto', 'find_moves'] if cls in STREAMS else [])))
     return case
@@ -286,6 +322,16 @@ def run(case):
                 via_route=str(r1)[:160], plain=str(r2)[:160], n=len(content))
         if not case['op'].startswith('mutate:') and case['op'] not in STREAM_OPS:
             require(obj.bin == content, 'a non-mutating operation changed the object built through the route', op=case['op'], route=case['route'])
+        if case['op'].startswith('mutate:'):
+            # after the same mutation the two are still equal to each other, and equal to a second object from the same source exactly when the bits are
+            require((obj == twin) is True and (twin == obj) is True and not (obj != twin), 'after the same mutation the object built through the route is not == its twin', route=case['route'], op=case['op'])
+            bs.options.lsb0 = case['lsb0'] and case['route'] not in POSITIONAL_ROUTES
+            again = build_any(case['cls'], content, case['route'], case['salt'], tmp)
+            bs.options.lsb0 = case['lsb0']
+            require(again.bin == content, 'a second object from the same source does not hold the content', route=case['route'])
+            same = obj.bin == content
+            require((obj == again) is same and (again == obj) is same and (obj != again) is (not same), '== between a mutated object and a fresh one from the same source disagrees with their bits',
+                    route=case['route'], op=case['op'], bits_equal=same, eq=(obj == again))
         # a second object from the same source behaves the same (shared buffers / caches must not be consumed)
         if case['route'] in ('cache_hit', 'auto_bin', 'fromstring', 'empty_plus_literal', 'literal_plus_empty', 'empty_plus_object', 'hex_or_bin', 'join', 'pack_bits'):
             again = build_any(case['cls'], content, case['route'], case['salt'], tmp)
@@ -309,7 +355,7 @@ def big_case_st(draw, tier):
     n = c['args']['content']['n']
     c['args']['i'] = draw(st.sampled_from([0, -1, n - 1, -n, n, -2, n // 2]))
     c['args']['start'], c['args']['end'] = None, None
-    cheap = ['len', 'bool', 'tobytes', 'hash', 'eq_twin', 'count', 'getitem', 'add', 'radd', 'add_self', 'invert', 'and', 'xor', 'lshift', 'rshift', 'to_BitArray', 'to_BitStream', 'to_Bits',
+    cheap = ['identity_ops', 'len', 'bool', 'tobytes', 'hash', 'eq_twin', 'count', 'getitem', 'add', 'radd', 'add_self', 'invert', 'and', 'xor', 'lshift', 'rshift', 'to_BitArray', 'to_BitStream', 'to_Bits',
              'copy', 'tofile', 'length_prop', 'uint', 'all', 'all_pos', 'startswith', 'endswith', 'find', 'rfind', 'contains', 'slice', 'mul', 'join_into', 'kw_bits', 'read_int', 'bytes_builtin']
     c['op'] = draw(st.sampled_from(cheap))
     if c['op'] == 'read_int' and c['cls'] not in STREAMS:
